@@ -159,6 +159,39 @@ pub fn select_order(site: &str) -> bool {
     point("select-order", site) == "1"
 }
 
+/// Watch a database connection: preparing a statement that writes while the connection holds only
+/// a read snapshot (a deferred transaction about to be upgraded) becomes the scheduling point
+/// `txn-upgrade`, so that the scheduler can let another process commit in between.
+pub fn watch_db(db: &rusqlite::Connection) {
+    if !active() {
+        return;
+    }
+    unsafe {
+        let h = db.handle();
+        libsqlite3_sys::sqlite3_set_authorizer(h, Some(authorizer), h as *mut std::os::raw::c_void);
+    }
+}
+
+unsafe extern "C" fn authorizer(
+    arg: *mut std::os::raw::c_void,
+    action: std::os::raw::c_int,
+    _a: *const std::os::raw::c_char,
+    _b: *const std::os::raw::c_char,
+    _c: *const std::os::raw::c_char,
+    _d: *const std::os::raw::c_char,
+) -> std::os::raw::c_int {
+    // SQLITE_CREATE_INDEX=1, CREATE_TABLE=2, DELETE=9, DROP_INDEX=10, DROP_TABLE=11, INSERT=18, UPDATE=23
+    const WRITES: [std::os::raw::c_int; 7] = [1, 2, 9, 10, 11, 18, 23];
+    if WRITES.contains(&action) {
+        let db = arg as *mut libsqlite3_sys::sqlite3;
+        // 1 == SQLITE_TXN_READ: a read snapshot is held, the write lock is not.
+        if libsqlite3_sys::sqlite3_txn_state(db, std::ptr::null()) == 1 {
+            point("txn-upgrade", "");
+        }
+    }
+    0
+}
+
 pub fn install_panic_hook() {
     if !active() {
         return;
